@@ -8,13 +8,14 @@
 #define MAXC 260
 typedef struct { char id [8] ; int idlen ; unsigned len ; unsigned char *data ; int seen_full, seen_id ; } CH ;
 
+static int reserved_pick ;
 static void mkid (char *id, int scheme, int i)
-{	static const char *reserved [] = { "fmt ", "LIST", "COMM", "bext", "PEAK", "fact", "cue ", "INST", "MARK", "chan", "info", "free" } ;
+{	static const char *reserved [] = { "fmt ", "LIST", "COMM", "bext", "PEAK", "fact", "cue ", "INST", "MARK", "chan", "info", "free", "APPL", "smpl", "cart", "NAME", "SSND", "data", "desc", "kuki" } ;
 	switch (scheme)
 	{	case 0 : snprintf (id, 8, "c%03d", i % 1000) ; break ;							/* distinct 4-char ids */
 		case 1 : snprintf (id, 8, "dup%d", i % 3) ; break ;								/* duplicates */
 		case 2 : { int l = 1 + i % 4 ; snprintf (id, 8, "%.*s", l, "q\0\0\0" "xy\0\0" "abc\0" "Test" + 4 * (l - 1)) ; if (l < 4) id [l] = 0 ; } break ;	/* 1..4 characters */
-		case 3 : snprintf (id, 8, "%s", reserved [i % 12]) ; break ;						/* ids the containers use themselves */
+		case 3 : snprintf (id, 8, "%s", reserved [reserved_pick % 20]) ; (void) i ; break ;		/* ONE id the containers use themselves per case, so that the key names it */
 		default : id [0] = 'A' + vh_rint (26) ; id [1] = 'a' + vh_rint (26) ; id [2] = '0' + vh_rint (10) ; id [3] = "_-+ "[vh_rint (3)] ; id [4] = 0 ; break ;
 		}
 }
@@ -25,7 +26,10 @@ static unsigned mklen (int scheme, int i)
 static char wlog [200] ;
 static void run_case (int format, int ch, int n, int idscheme, int lenscheme, int mix, int late)
 {	MEMF m ; SNDFILE *s ; SF_INFO ri ; CH *cs = calloc (n + 2, sizeof (CH)) ; const char *fn = vh_fname (format) ; int i, N = 777, rc, fp = vh_is_fp (format & SF_FORMAT_SUBMASK) ;
-	const char *idq = idscheme == 3 ? "|reserved-ids" : idscheme == 2 ? "|ids-shorter-than-4" : "" ;
+	char idqb [40] ; const char *idq ;
+	reserved_pick = (int) (vh_case_idx / 7) ;
+	{ char rid [8] ; mkid (rid, 3, 0) ; snprintf (idqb, sizeof (idqb), "|reserved-id:%s", rid) ; }
+	idq = idscheme == 3 ? idqb : idscheme == 2 ? "|ids-shorter-than-4" : "" ;
 	long total = 0 ; short *audio = malloc (sizeof (short) * N * ch), *back ; const char *over ;
 	memset (&m, 0, sizeof (m)) ;
 	for (i = 0 ; i < N * ch ; i++) audio [i] = (short) (i * 37 + 11) ;
@@ -74,7 +78,7 @@ static void run_case (int format, int ch, int n, int idscheme, int lenscheme, in
 		}
 	free (back) ;
 	if ((mix & 1) && (!sf_get_string (s, SF_STR_TITLE) || strcmp (sf_get_string (s, SF_STR_TITLE), "title before chunks")))
-		vh_viol (vh_key ("C13|string-lost|%s%s", fn, over), "title string set before the chunks came back as '%s'", sf_get_string (s, SF_STR_TITLE) ? sf_get_string (s, SF_STR_TITLE) : "(null)") ;
+		vh_viol (vh_key ("C13|string-lost|%s%s%s", fn, over, idq), "title string set before the chunks came back as '%s'", sf_get_string (s, SF_STR_TITLE) ? sf_get_string (s, SF_STR_TITLE) : "(null)") ;
 	/* full iteration */
 	{	SF_CHUNK_ITERATOR *it = sf_get_chunk_iterator (s, NULL) ; int steps = 0, next = 0, limit = n + 80 ;
 		while (it != NULL && steps <= limit)
